@@ -50,7 +50,9 @@ class FanoutCache:
             # An existing shard keeps its stored size limit, like every other
             # setting, unless a size limit is given.
 
-            if explicit_size_limit or not op.exists(op.join(shard_dir, DBNAME)):
+            if explicit_size_limit or not self._stores_size_limit(
+                shard_dir, timeout
+            ):
                 shard_settings['size_limit'] = size_limit
 
             caches.append(
@@ -67,6 +69,29 @@ class FanoutCache:
         self._caches = {}
         self._deques = {}
         self._indexes = {}
+
+    @staticmethod
+    def _stores_size_limit(shard_dir, timeout):
+        """Return True when the shard in `shard_dir` stores a size limit.
+
+        A shard whose creation was interrupted may have a database without
+        one: it gets its share of the size limit like a new shard.
+
+        """
+        path = op.join(shard_dir, DBNAME)
+
+        if not op.exists(path):
+            return False
+
+        con = sqlite3.connect(path, timeout=timeout, isolation_level=None)
+
+        try:
+            select = 'SELECT value FROM Settings WHERE key = "size_limit"'
+            return bool(con.execute(select).fetchall())
+        except sqlite3.OperationalError as error:
+            return 'no such table' not in str(error)
+        finally:
+            con.close()
 
     @property
     def directory(self):
